@@ -213,11 +213,58 @@ def _check_case(case: Dict[str, Any]) -> Tuple[List[Tuple[str, str]], Dict[str, 
     return res, info
 
 
+# ---------------------------------------------------------------- type specifications (google / numpy)
+# A type specification that is reported as malformed in one place is reported wherever it may be written: whether a problem is
+# "reported against that object" must not depend on the section it sits in.
+TYPESPECS = ['list[int', 'dict(str, int', '{1, 2', 'int]', 'list[int]', 'str or None', 'int, optional', "{'a', 'b'}", 'tuple(int, str)', 'a ]', '`x', 'list of (int', ':class:`C`', 'default 3']
+TYPESPEC_PLACES = {
+    'numpy': {
+        'parameter': 'Summary.\n\nParameters\n----------\na : %s\n    desc\n',
+        'attribute-like other parameter': 'Summary.\n\nOther Parameters\n----------------\na : %s\n    desc\n',
+        'single return': 'Summary.\n\nReturns\n-------\n%s\n    desc\n',
+        'several anonymous returns': 'Summary.\n\nReturns\n-------\n%s\n    desc\nint\n    other\n',
+        'named then anonymous return': 'Summary.\n\nReturns\n-------\nx : int\n    first\n%s\n    desc\n',
+        'several anonymous yields': 'Summary.\n\nYields\n------\n%s\n    desc\nint\n    other\n',
+        'named return': 'Summary.\n\nReturns\n-------\nx : %s\n    desc\n',
+    },
+    'google': {
+        'parameter': 'Summary.\n\nArgs:\n    a (%s): desc\n',
+        'keyword': 'Summary.\n\nKeyword Args:\n    a (%s): desc\n',
+        'return': 'Summary.\n\nReturns:\n    %s: desc\n',
+        'yield': 'Summary.\n\nYields:\n    %s: desc\n',
+    },
+}
+
+
+def check_typespec(fmt: str, spec: str) -> Tuple[List[Tuple[str, str]], Dict[str, bool]]:
+    import contextlib
+    import io
+    from pydoctor import epydoc2stan
+    from pydoctor.stanutils import flatten
+    reported: Dict[str, bool] = {}
+    with contextlib.redirect_stdout(io.StringIO()), contextlib.redirect_stderr(io.StringIO()):
+        for place, tmpl in TYPESPEC_PLACES[fmt].items():
+            if fmt == 'google' and ':' in spec and place in ('return', 'yield'):
+                continue  # the first colon of a Google return entry ends the type
+            s = build([('m', None, False, 'def func(a):\n    %r\n' % (tmpl % spec,))], args=['--docformat=' + fmt])
+            try:
+                flatten(epydoc2stan.format_docstring(s.allobjects['m.func']))
+            except Exception as e:
+                return [('render-raises', 'type specification %r as %s (%s): %s: %s' % (spec, place, fmt, type(e).__name__, e))], reported
+            reported[place] = any('bad docstring' in m for sec, m, th in s.msgs)
+    out: List[Tuple[str, str]] = []
+    if len(set(reported.values())) > 1:
+        out.append(('typespec-report-depends-on-place', '%s type specification %r: reported as a problem of the object in %s, silently accepted in %s' % (
+            fmt, spec, sorted(p_ for p_, r in reported.items() if r), sorted(p_ for p_, r in reported.items() if not r))))
+    return out, reported
+
+
 def plan(tier: str, seed: int, scale: float = 1.0) -> List[Any]:
     n = ncpu()
     total = int((2400 if tier == 'quick' else 40000) * scale)
     shards = n if tier == 'quick' else 4 * n
     items: List[Any] = [{'n': max(1, total // shards), 'seed': seed * 1000 + i} for i in range(shards)]
+    items += [{'kind': 'typespec', 'fmt': 'numpy'}, {'kind': 'typespec', 'fmt': 'google'}]
     if tier == 'thorough':
         for i in range(n):
             items.append({'kind': 'atheris', 'seconds': int(300 * scale), 'seed': seed * 1000 + 300 + i})
@@ -228,6 +275,18 @@ def work(item: Dict[str, Any]) -> Acc:
     if item.get('kind') == 'atheris':
         from ..core import run_fuzz_item
         return run_fuzz_item(ID, 'c08', item['seconds'], item['seed'])
+    if item.get('kind') == 'typespec':
+        acc = Acc()
+        for spec in TYPESPECS:
+            d, rep = check_typespec(item['fmt'], spec)
+            acc.case(nontrivial=True, distinct_by_construction=True, classes=['typespec-' + item['fmt']],
+                     sample=({'typespec': spec, 'format': item['fmt'], 'reported_in': rep} if spec in ('list[int', 'str or None') else None))
+            try:
+                judge(ID, acc, {'kind': 'typespec', 'fmt': item['fmt'], 'spec': spec}, d)
+            except Violation as v:
+                acc.violations.append(v.as_dict())
+        acc.exhaustive_parts.append('type specifications x every place they may be written (google, numpy)')
+        return acc
     from hypothesis import strategies as st
     from ..gen import docs
     acc = Acc()
@@ -244,4 +303,6 @@ def work(item: Dict[str, Any]) -> Acc:
 
 
 def replay(case: Dict[str, Any]) -> List[Tuple[str, str]]:
+    if case.get('kind') == 'typespec':
+        return check_typespec(case['fmt'], case['spec'])[0]
     return check_case(case)[0]
